@@ -83,24 +83,18 @@ Theorem C15_ordinal_last_word : forall z ws, cardinal_words z = Some ws ->
   ordinal_words z = Some (removelast ws ++ [ordinal_word (last ws [])]).
 Proof. exact ordinal_last_word. Qed.
 Print Assumptions C15_ordinal_last_word.
-(* (6b) The loop of dirR (for _, trip := range cardinalTriples, three digits of the decimal text per round, the pop of
-   the scale word of an all-zero group, the ordinal tables in the first round only) writes, for EVERY integer, the
-   text of the definition (or, from 10^66 on, signals an error where the definition has no text) wherever english_ok
-   holds: for ordinals below 10^66, the number is 0 or ends in 01..19 or in a digit that is not 0
-   (C15-ordinal-of-round-number). By induction over the groups of three digits of the decimal text; the words of one
-   round are compared with the definition for all 22 x 1000 (scale, group value) pairs by kernel computation — the
-   domain of a group is finite. No bound on z. *)
-Theorem C15_english_loop : forall ordinal z, english_ok ordinal (Z.abs_N z) = true ->
-  go_english src_tables ordinal (dec_text z) = std_english ordinal z.
+(* (6b) The English branch of dirR (the "number too large" test on the length of the decimal text, for _, trip := range
+   cardinalTriples with three digits per round, the pop of the scale word of an all-zero group, the ordinal tables in the
+   first round only, the ordinal ending y -> ieth / + th given to the last word when the number ends in 0 and not in
+   10) writes, for EVERY integer, cardinal and ordinal, exactly the text of the definition, and signals an error exactly
+   where the definition has no text (from 10^66 on). No guard, no bound on z. By induction over the groups of three
+   digits of the decimal text; the words of one round are compared with the definition for all 22 x 1000 (scale, group
+   value) pairs by kernel computation — the domain of a group is finite. (Until the repairs repo_fixes/C15-1..4 this held
+   on a static predicate english_ok only, whose four clauses were the findings C15-quantillion, C15-english-empty-word,
+   C15-english-beyond-vigintillion and C15-ordinal-of-round-number; the equivalence C15_english_loop_exact went with it.) *)
+Theorem C15_english_loop : forall ordinal z, go_english src_tables ordinal (dec_text z) = std_english ordinal z.
 Proof. exact english_loop. Qed.
 Print Assumptions C15_english_loop.
-(* (6c) ... and EXACTLY there: for every integer outside english_ok the loop writes a text that is not the defined one
-   (a cardinal where the ordinal is wanted). So the clauses of english_ok are each necessary: they are the remaining known
-   findings about the English writer (the quantillion, empty-word and 10^66 clauses went with repo_fixes/C15-1, C15-2 and C15-3), and there is no other. *)
-Theorem C15_english_loop_exact : forall ordinal z,
-  go_english src_tables ordinal (dec_text z) = std_english ordinal z <-> english_ok ordinal (Z.abs_N z) = true.
-Proof. exact english_loop_exact. Qed.
-Print Assumptions C15_english_loop_exact.
 (* (6d) What the loop writes for every integer but 0 and EVERY table (no guard): nothing (an error) when the decimal text
    has more than three digits per scale word; otherwise "negative" if z < 0, then the words of
    the groups of three digits of |z| from the most significant one, each group as one round of the loop writes it (GL);
@@ -108,9 +102,12 @@ Print Assumptions C15_english_loop_exact.
 Theorem C15_english_loop_words : forall T colon z, z <> 0%Z ->
   go_english T colon (dec_text z) =
   if Nat.ltb (3 * List.length (t_triples T)) (List.length (digit_text 10 (Z.abs_N z))) then None else
-  Some (join [sp] ((if (z <? 0)%Z then [tx "negative"] else []) ++
-                   rev (GL T (t_triples T) (if colon then t_ordone T else t_one T) (if colon then t_ordteen T else t_teen T)
-                           (triples_of (Z.abs_N z))))).
+  match go_ordinal_first colon (digit_text 10 (Z.abs_N z))
+          (GL T (t_triples T) (if colon then t_ordone T else t_one T) (if colon then t_ordteen T else t_teen T)
+              (triples_of (Z.abs_N z))) with
+  | None => None
+  | Some words => Some (join [sp] ((if (z <? 0)%Z then [tx "negative"] else []) ++ rev words))
+  end.
 Proof. exact go_english_words. Qed.
 Print Assumptions C15_english_loop_words.
 Theorem C15_decimal_text_by_groups : forall n, (1000 <= n)%N ->
@@ -208,13 +205,13 @@ Theorem C15_roman_site_coincides : forall colon c z, (1 <= z <= 3999)%Z -> arg_a
   dir_radix true src_tables colon true [] c = dir_radix false src_tables colon true [] c.
 Proof. exact roman_site_coincides. Qed.
 Print Assumptions C15_roman_site_coincides.
-(* the same for every integer but 0 (Roman) and for every integer inside english_ok (English, cardinal and ordinal):
-   consequences of (5b) and (6b); so ~R ~:R ~@R ~:@R without parameters leave the guard only at the known findings. *)
+(* the same for every integer but 0 (Roman) and for every integer (English, cardinal and ordinal): consequences of
+   (5b) and (6b); so ~R ~:R without parameters never leave the guard, ~@R ~:@R only at 0. *)
 Theorem C15_roman_site_coincides_all : forall colon c z, z <> 0%Z -> arg_at c = Some (VInt z) ->
   dir_radix true src_tables colon true [] c = dir_radix false src_tables colon true [] c.
 Proof. exact roman_site_coincides_all. Qed.
 Print Assumptions C15_roman_site_coincides_all.
-Theorem C15_english_site_coincides : forall colon c z, english_ok colon (Z.abs_N z) = true -> arg_at c = Some (VInt z) ->
+Theorem C15_english_site_coincides : forall colon c z, arg_at c = Some (VInt z) ->
   dir_radix true src_tables colon false [] c = dir_radix false src_tables colon false [] c.
 Proof. exact english_site_coincides. Qed.
 Print Assumptions C15_english_site_coincides.
@@ -229,13 +226,8 @@ Print Assumptions C15_english_site_coincides.
 Theorem C15_known_deviations_refuted : forallb deviates deviation_witnesses = true.
 Proof. exact deviations_hold. Qed.
 Print Assumptions C15_known_deviations_refuted.
-Theorem C15_known_deviation_values :
-  map both [("~{~A~^,~}", [ints [1; 2; 3]]); ("~2R", [VInt 5]); ("~:R", [VInt 100]); ("~D", [VStr (tx "abc")]);
-            ("abc~2,4T|", []); ("~:*~A", [VInt 1]); ("~{~A~}}", [ints [1]]); ("~:[f~;t~]", [VList []])]%string%Z =
-  [ (OText (tx "1,"), OText (tx "1,2,3")); (OText (tx "five"), OText (tx "101"));
-    (OText (tx "one hundred"), OText (tx "one hundredth")); (OText (tx """abc"""), OText (tx "abc"));
-    (OText (tx "abc     |"), OText (tx "abc   |")); (OText (tx "nil"), OError);
-    (OText (tx "1"), OText (tx "1}")); (OText (tx "t"), OText (tx "f")) ].
+(* for the entries of Proofs.deviation_table (control string, arguments, what M writes, what S writes): *)
+Theorem C15_known_deviation_values : map (fun e => both (fst e)) deviation_table = map snd deviation_table.
 Proof. exact deviation_values. Qed.
 Print Assumptions C15_known_deviation_values.
 Theorem C15_guard_nonvacuous : forallb in_guard_same guard_examples = true.
